@@ -226,4 +226,33 @@ def run(ctx):
                for eid_ in range(len(fa['elems'])) for x in v.events_of(eid_))
     ctx.check(okfc, 'R3', 'Floyd uses the same edge cost (size of the declared link list)', where(fa), '', key='R3|FloydZone|edge cost')
     ctx.assume('equality of the link counts returned by the three algorithms follows from minimality only; ties between equal-cost paths are not decided')
+    # ---- R4 the predecessor table kept in the per-source cache is complete -----------------------------------------------------------------------
+    ctx.rule('R4', 'Dijkstra: the relaxation loop runs until the queue is empty (no exit that depends on the destination): the predecessor table is cached per source and reused for other destinations', 1)
+    dj = [f for f in P.fns.values() if f['q'].endswith('DijkstraZone::get_local_route') and f.get('blocks')]
+    if len(dj) != 1:
+        ctx.unrecognised('R4', 'DijkstraZone::get_local_route: %d definitions' % len(dj))
+    else:
+        f = dj[0]
+        v = A.view(f)
+        from .. import cg as _cg
+        heads = [h for h in v.loop_heads() if v.cond_atom(h['id']) is not None and v.cond_atom(h['id'])[0][0] == 'truthy' and v.cond_atom(h['id'])[0][1][0] == 'call' and
+                 v.cond_atom(h['id'])[0][1][1].endswith('::empty') and 'queue' in repr(v.cond_atom(h['id'])[0][1][2]).lower()]
+        cached = any(e.kind == 'call' and e.q.endswith('::try_emplace') and 'route_cache_' in repr(e.obj) for eid in range(len(f['elems'])) for e in v.events_of(eid))
+        if len(heads) != 1 or not cached:
+            ctx.unrecognised('R4', 'Dijkstra main loop (while the queue is not empty) or the per-source cache not recognised (%d loop(s), cache=%s)' % (len(heads), cached))
+        else:
+            h = heads[0]
+            body = _cg.natural_loop(v, h['id']) | {h['id']}
+            reach = _cg.reachable_blocks(v)
+            early = []
+            for b in body:
+                if b == h['id'] or b not in reach:
+                    continue
+                for s_ in v.succs(b):
+                    if s_ is not None and s_ not in body and not v.dead(s_):
+                        t = v.blocks[b].get('t') or {}
+                        early.append(t.get('l') or v.blocks[s_].get('t', {}).get('l') or 0)
+            ctx.check(not early, 'R4', 'DijkstraZone::get_local_route: the relaxation loop has no early exit', where(f, early[0] if early else None),
+                      'the loop is left at line %s before the queue is empty: the nodes still queued keep a tentative (or no) predecessor, and that table is what later queries from the same source read' % early[0] if early else '',
+                      key='R4|get_local_route|complete predecessor table')
     return EXPLANATION
